@@ -321,6 +321,8 @@ def master_main(prop, tier, seed, replay_path=None):
     if per_mech[v['mechanism']] > 2 or len(lines) >= 12:
       continue
     path = os.path.join(REPLAY_DIR, '%s-%s.json' % (prop, stable_hash((v['mechanism'], v['stream'], v['index'], v['seed'], v['tier']))))
+    if any(path in ln for ln in lines):
+      continue
     with open(path, 'w') as f:
       json.dump(v, f, indent=1)
     lines.append('VIOLATION property=%s replay=%s mechanism=%s' % (prop, path, v['mechanism']))
